@@ -39,10 +39,27 @@ def pointing_pixels(nside: int, theta: np.ndarray, phi: np.ndarray, psi: np.ndar
     v = np.einsum('tij,jdm->idmt', R, dirs)                                                # (3, ndet, ndir, nt)
     pix = hp.vec2pix(nside, v[0], v[1], v[2])
     amb = np.zeros(pix.shape, dtype=bool)
+    cands = [pix.astype(np.int64)]
     for e in itertools.product((-1e-9, 1e-9), repeat=3):
         w = v + np.array(e)[:, None, None, None]
-        amb |= hp.vec2pix(nside, w[0], w[1], w[2]) != pix
+        c = hp.vec2pix(nside, w[0], w[1], w[2])
+        cands.append(c.astype(np.int64))
+        amb |= c != pix
+    CANDIDATES[id(amb)] = np.stack(cands)          # pixels a direction within 1e-9 of a border may legitimately be assigned to
     return pix.astype(np.int64), amb
+
+
+CANDIDATES: dict[int, np.ndarray] = {}
+
+
+def near_border_ok(amb: np.ndarray, got: np.ndarray, expected_for: Any, sel: Any = None) -> np.ndarray:
+    """Boolean array: the value read for a border-ambiguous sample equals the model evaluated at ONE of the
+    neighbouring candidate pixels (a sample near a border may fall on either side, but nowhere else)."""
+    ok = np.zeros(got.shape, dtype=bool)
+    for cand in CANDIDATES[id(amb)]:
+        cand = cand if sel is None else sel(cand)
+        ok |= np.isclose(got, expected_for(cand), rtol=1e-9, atol=1e-10)
+    return ok
 
 
 def make_inputs(rng: Any, nside: int, ndet: int, ndir: int, nt: int, how: str) -> tuple[Sampling, DetectorArray, np.ndarray, np.ndarray, np.ndarray, np.ndarray]:
@@ -69,6 +86,14 @@ def make_inputs(rng: Any, nside: int, ndet: int, ndir: int, nt: int, how: str) -
     z = np.ones((ndet, ndir))
     if rng.integers(4) == 0:
         x[0, 0], y[0, 0] = 0.0, 0.0
+    if how == 'pole-landing':
+        # every sample carries one OFF-AXIS detector exactly onto a pole: Rz(psi) turns it into the x-z plane, Ry(theta) onto +-z
+        for t in range(nt):
+            d, mm = int(rng.integers(ndet)), int(rng.integers(ndir))
+            a = np.arctan2(np.hypot(x[d, mm], y[d, mm]), 1.0)
+            psi[t] = np.pi - np.arctan2(y[d, mm], x[d, mm])
+            theta[t] = a + (np.pi if rng.integers(2) else 0.0)
+        samp = Sampling(jnp.asarray(theta), jnp.asarray(phi), jnp.asarray(psi))
     det = DetectorArray(x, y, z)
     dirs = np.stack([x, y, z]) / np.sqrt(x**2 + y**2 + z**2)
     return samp, det, theta, phi, psi, dirs
@@ -134,12 +159,14 @@ def case(rng: Any, ctx: Ctx, index: int) -> None:
         nt = ndet                                           # as many samples as detectors
     if index % 5 == 2:
         case_border(rng, ctx, index)
-    how = gen.pick(rng, ['uniform', 'wrap', 'poles', 'polar-crossing', 'random-sampling'])
+    how = gen.pick(rng, ['uniform', 'wrap', 'poles', 'polar-crossing', 'pole-landing', 'random-sampling'])
     land = HealpixLandscape(nside, kind, np.float64)
     samp, det, theta, phi, psi, dirs = make_inputs(rng, nside, ndet, ndir, nt, how)
     pix, amb = pointing_pixels(nside, theta, phi, psi, dirs)
+    amb0, sel = amb, None
     if ndir == 1:
         pix, amb = pix[:, 0, :], amb[:, 0, :]
+        sel = lambda a: a[:, 0, :]  # noqa: E731
     key = f'{mode}:nside{nside}:{kind}:ndet{min(ndet, 2)}:ndir{ndir}:{how}:{"long" if nt > 1024 else "short"}'
     LOG.case_key(key, len(np.unique(pix)) >= 2)
     sky = land.normal(jax.random.PRNGKey(int(rng.integers(1 << 30))))
@@ -163,6 +190,14 @@ def case(rng: Any, ctx: Ctx, index: int) -> None:
                     LOG.violation('C16', 'C16.projection', 'projection/shape', f'{got[c].shape} vs {exp[c].shape}', config=key)
                     return
                 bad = ~np.isclose(got[c], exp[c], rtol=1e-9, atol=1e-10) & ~amb
+                if amb.any():
+                    def exp_for(pp: np.ndarray, c: str = c) -> np.ndarray:
+                        if c == 'Q':
+                            return m['Q'][pp] * c2 - m['U'][pp] * s2
+                        if c == 'U':
+                            return m['Q'][pp] * s2 + m['U'][pp] * c2
+                        return m[c][pp]
+                    bad |= amb & ~near_border_ok(amb0, got[c], exp_for, sel)
                 if bad.any():
                     LOG.violation('C16', 'C16.projection', f'projection/values/{c}/{"multi-dir" if ndir > 1 else "one-dir"}',
                                   f'{int(bad.sum())} of {bad.size} samples differ from the pointing model', config=key)
@@ -204,6 +239,12 @@ def case(rng: Any, ctx: Ctx, index: int) -> None:
                 LOG.violation('C16', 'C16.acquisition', 'acquisition/shape', f'{got.shape} vs {exp.shape}', config=key)
                 return
             bad = ~np.isclose(got, exp, rtol=1e-9, atol=1e-10) & ~amb
+            if amb.any():
+                def exp_for(pp: np.ndarray) -> np.ndarray:
+                    ii = m['I'][pp] if 'I' in kind else 0.0
+                    qq = (m['Q'][pp] * c2 - m['U'][pp] * s2) if 'Q' in kind else 0.0
+                    return 0.5 * (ii + qq)
+                bad |= amb & ~near_border_ok(amb0, got, exp_for, sel)
             if bad.any():
                 LOG.violation('C16', 'C16.acquisition', f'acquisition/values/{kind}', f'{int(bad.sum())} of {bad.size} samples differ from (I + Q cos 2psi - U sin 2psi)/2',
                               config=key, form=dense.skeleton(H))
